@@ -177,11 +177,12 @@ def random_ops(rng, frags=FRAGS):
         if rng.random() < 0.3:
             # flush only a pending line that shows something or nothing at all (escape-only fragments:
             # the statement does not say whether a blank line is due)
-            vis = [t for t in lex(buf) if t[0] == "c"]
-            complete = split_carry(buf)[1] == ""
-            if (vis and complete) or buf == "":
+            # the pending text may end inside an escape sequence: what is complete is due now, the cut sequence stays pending
+            done, carry = split_carry(buf)
+            vis = [t for t in lex(done) if t[0] == "c"]
+            if vis or done == "":
                 ops.append(dict(k="flush"))
-                buf = ""
+                buf = carry
     if rng.random() < 0.5:
         ops.append(dict(k="write", text="\n"))
     return ops
@@ -265,10 +266,11 @@ def fileproxy_part(chk: Check):
                 joined = bufs[pid] + op["text"]
                 bufs[pid] = joined.rsplit("\n", 1)[-1]
             else:
-                vis = [t for t in lex(bufs[pid]) if t[0] == "c"]
-                if vis or bufs[pid] == "":
+                done, carry = split_carry(bufs[pid])
+                vis = [t for t in lex(done) if t[0] == "c"]
+                if vis or done == "":
                     out.append(op)
-                    bufs[pid] = ""
+                    bufs[pid] = carry
         cleaned.append(out)
     cases = cleaned
     settings = [random_setting(chk.rng, ops) if st == "random" else st for ops, st in zip(cases, settings)]
